@@ -14,6 +14,12 @@ pub fn rogue_link<'a>(t: &mut Terminal<'a>, o: &'a RefCell<Terminal<'a>>) {
     t.other = Some(o);
 }
 
+/// C16.L (store form): the re-borrowed argument is stored, so it outlives the caller's borrow.
+pub fn link_laundered<'a>(t: &mut Terminal<'a>, o: &RefCell<Terminal<'a>>) {
+    let o = unsafe { &*(o as *const RefCell<Terminal<'a>>) };
+    t.other = Some(o);
+}
+
 pub struct SettableData<S> {
     pub following: Option<S>,
     pub last_request: Option<S>,
